@@ -114,7 +114,10 @@ fn pool(kind: &str) -> Vec<Coor4D> {
                 &[(11., 55.), (10.5, 54.5), (10., 54.), (12., 56.), (11.25, 55.75), (13., 55.), (11., 57.), (10.2, 55.9),
                   (10.75, 55.25), (11.6, 55.), (11.8, 54.2), (10.3, 55.45)]
             } else {
-                &[(12., 55.), (9., 0.), (-70., -33.), (179.5, 10.), (10., 89.), (8., 47.), (115., 4.), (30., -85.)]
+                // (both poles and a projection centre: places where operators branch, and where a scratch value
+                // left over from the neighbouring tuple would show)
+                &[(12., 55.), (9., 0.), (-70., -33.), (179.5, 10.), (10., 89.), (8., 47.), (115., 4.), (30., -85.),
+                  (12., 90.), (-70., -90.), (10., 52.)]
             };
             for (i, (lon, lat)) in pts.iter().enumerate() {
                 let h = [0., 100., -5., 2500.][i % 4];
